@@ -1,0 +1,160 @@
+//go:build verif
+
+// Contracts for the deductive verifier in /verif (comment-only; compiled only with -tags verif).
+// Syntax: DESIGN.md appendix E. Loops are numbered in source order (pre-order) per function.
+
+package randomness
+
+// ---------------------------------------------------------------------------------------------
+// utils.go
+
+//@ func igamc
+//@   trusted
+//@   modifies nothing
+//@   pure
+//@   ensures r0 == igamcR(a, x)
+
+//@ func Igamc
+//@   modifies nothing
+//@   pure
+//@   ensures r0 == igamcR(a, x)
+
+//@ func subsequencepattern
+//@   requires 0 <= m && m <= len(bits)
+//@   modifies nothing
+//@   ensures r0 == pat(bits, 0, m)
+//@   ensures 0 <= r0 && r0 < pow2(m)
+//@   loop 1
+//@     invariant 0 <= j && j <= m
+//@     invariant bits == bits@pre[j:]
+//@     invariant tmp == pat(bits@pre, 0, j)
+//@     invariant 0 <= tmp && tmp < pow2(j)
+
+//@ func B2bit
+//@   modifies nothing
+//@   ensures len(r0) == 8 && off(r0) == 0 && fresh(r0)
+//@   ensures forall j int :: 0 <= j && j < 8 ==> r0[j] == bit8(b, j)
+
+//@ func B2bitArr
+//@   modifies nothing
+//@   ensures len(r0) == 8*len(src) && off(r0) == 0 && fresh(r0)
+//@   ensures forall k int :: 0 <= k && k < 8*len(src) ==> r0[k] == expand(src)[k]
+//@   loop 1
+//@     invariant len(res) == 8*$i && cap(res) == 8*len(src) && off(res) == 0 && fresh(res)
+//@     invariant forall k int :: 0 <= k && k < 8*$i ==> res[k] == expand(src)[k]
+
+//@ func xor
+//@   modifies nothing
+//@   ensures r0 == (x != y)
+
+//@ func max
+//@   modifies nothing
+//@   ensures r0 == (x > y ? x : y)
+
+//@ func min
+//@   modifies nothing
+//@   ensures r0 == (x < y ? x : y)
+
+//@ func abs
+//@   modifies nothing
+//@   ensures r0 == (x > 0 ? x : -x)
+
+//@ func b2i
+//@   modifies nothing
+//@   ensures r0 == (b ? 1 : 0)
+
+// ---------------------------------------------------------------------------------------------
+// mono_bit_frequency.go
+
+//@ func MonoBitFrequencyTest
+//@   requires len(bits) >= 1
+//@   modifies nothing
+//@   pure
+//@   loop 1
+//@     invariant S == 2*ones(bits, 0, $i) - $i
+
+//@ func MonoBitFrequencyTestBytes
+//@   requires len(data) >= 1
+//@   modifies nothing
+//@   pure
+//@   loop 1
+//@     invariant S == 2*ones(expand(data), 0, 8*$i) - 8*$i
+//@   use end loop 1: ones_expand_step(data, $i)
+
+// ---------------------------------------------------------------------------------------------
+// frequency_within_block.go
+
+//@ func selectM
+//@   modifies nothing
+//@   ensures r0 == (n >= 100000000 ? 1000000 : n >= 1000000 ? 10000 : n >= 10000 ? 1000 : n >= 1000 ? 100 : 10)
+
+//@ func FrequencyWithinBlockProto
+//@   requires 1 <= m && m <= len(bits)
+//@   modifies nothing
+//@   pure
+//@   let N := len(bits@pre) / m
+//@   loop 1
+//@     invariant 0 <= i && i <= N
+//@     invariant bits == bits@pre[i*m : N*m]
+//@     invariant V == blocksq(bits@pre, m, i)
+//@   loop 2
+//@     invariant 0 <= j && j <= m
+//@     invariant bits == bits@pre[i*m + j : N*m]
+//@     invariant Pi == real(ones(bits@pre, i*m, i*m + j))
+
+// ---------------------------------------------------------------------------------------------
+// poker.go
+
+//@ func PokerProto
+//@   cases m in {2, 4, 8}
+//@   requires len(bits) >= 8
+//@   modifies nothing
+//@   pure
+//@   loop 1
+//@     invariant 0 <= i && i <= N
+//@     invariant forall v int :: 0 <= v && v < _2m ==> patterns[v] == cntpat(bits, m, v, i)
+//@   loop 2
+//@     invariant 0 <= i && i <= _2m
+//@     invariant V == sqsumh(bits, m, N, i)
+
+//@ func PokerTestBytes
+//@   cases m in {2, 4, 8}
+//@   requires len(data) >= 1
+//@   modifies nothing
+//@   pure
+//@   loop 1
+//@     invariant 0 <= i && i <= N
+//@     invariant forall v int :: 0 <= v && v < 256 ==> patterns[v] == cntpat(expand(data), 8, v, i)
+//@   loop 2
+//@     invariant 0 <= i && i <= len(data)
+//@     invariant forall v int :: 0 <= v && v < 16 ==> patterns[v] == cntpat(expand(data), 4, v, 2*i)
+//@   loop 3
+//@     invariant 0 <= i && i <= _2m
+//@     invariant V == sqsumh(expand(data), m, N, i)
+//@   use end loop 1: byte_pat8(data, i)
+//@   use end loop 2: byte_nibbles(data, i)
+
+// ---------------------------------------------------------------------------------------------
+// runs.go
+
+//@ func RunsTest
+//@   requires len(bits) >= 1
+//@   modifies nothing
+//@   pure
+//@   loop 1
+//@     invariant 0 <= i && i <= n-1
+//@     invariant V_obs == nruns(bits, i)
+//@     invariant Pi == real(ones(bits, 0, i)) && 0 <= ones(bits, 0, i) && ones(bits, 0, i) <= i
+//@     invariant ones(bits, 0, i) == 0 && !bits[i] ==> V_obs == 1
+//@     invariant ones(bits, 0, i) == i && bits[i] ==> V_obs == 1
+
+// ---------------------------------------------------------------------------------------------
+// autocorrelation.go
+
+//@ func AutocorrelationProto
+//@   requires len(bits) >= 16 && 1 <= d && d < len(bits)
+//@   modifies nothing
+//@   pure
+//@   loop 1
+//@     invariant 0 <= i && i <= n-d
+//@     invariant Ad == cntdiff(bits, d, i)
